@@ -89,7 +89,9 @@ def _iter_next(s, ctx, it):
     return none()
 
 
-def _mk_iter(d, kind=None):
+def _mk_iter(d, kind=None, ctx=None):
+    if isinstance(d, ArgVal) and ctx is not None:
+        el = d.elements(ctx); return IterM([Ref(SlotCell(el, i)) for i in range(len(el))])
     if isinstance(d, SeqM): return IterM([Ref(SlotCell(d.items, i)) for i in range(len(d.items))])
     if isinstance(d, MapM):
         if d.kind == 'HashSet': return IterM([Ref(SlotCell(it, 0)) for it in d.items])
@@ -251,6 +253,8 @@ def _builtin(s, ctx, func, g, tc, A, caller, ln, last):
     if E('Vec::as_slice') or E('Vec::as_mut_slice'): return A[0]
     if re.search(r'(Vec|VecDeque)::(push|push_back)$', g): deref_all(A[0]).items.append(A[1]); return unit()
     if E('VecDeque::push_front'): deref_all(A[0]).items.insert(0, A[1]); return unit()
+    if (re.search(r'(Vec|VecDeque)::(len|is_empty)$', g) or E('<impl [T]>::len') or E('<impl [T]>::is_empty')) and isinstance(deref_all(A[0]), ArgVal):
+        n_ = len(deref_all(A[0]).elements(ctx)); return n_ if g.endswith('len') else n_ == 0
     if re.search(r'(Vec|VecDeque)::len$', g) or E('<impl [T]>::len'): return len(deref_all(A[0]).items)
     if re.search(r'(Vec|VecDeque)::is_empty$', g) or E('<impl [T]>::is_empty'): return len(deref_all(A[0]).items) == 0
     if E('Vec::capacity') or E('VecDeque::capacity'):
@@ -258,7 +262,7 @@ def _builtin(s, ctx, func, g, tc, A, caller, ln, last):
         if d.cap is None: d.cap = ctx.fresh_int('vcap', len(d.items), 2 ** 36)
         return d.cap
     if re.search(r'(VecDeque|Vec)::iter(_mut)?$', g) or E('<impl [T]>::iter') or E('<impl [T]>::iter_mut'):
-        return _mk_iter(deref_all(A[0]))
+        return _mk_iter(deref_all(A[0]), ctx=ctx)
     if E('VecDeque::remove'):
         d = deref_all(A[0]); i = _conc_index(ctx, A[1], len(d.items))
         return some(d.items.pop(i)) if i is not None else none()
@@ -328,7 +332,7 @@ def _builtin(s, ctx, func, g, tc, A, caller, ln, last):
             if isinstance(x, IterM): return x
             if isinstance(x, SeqM): return IterM(list(x.items))
             if isinstance(x, MapM): return IterM([tup(it[0], it[1]) for it in x.items] if x.kind != 'HashSet' else [it[0] for it in x.items])
-            if isinstance(x, Ref): return _mk_iter(deref_all(x))
+            if isinstance(x, Ref): return _mk_iter(deref_all(x), ctx=ctx)
             if isinstance(x, Agg) and x.ty in ('array',): return IterM(list(x.fields))
             if isinstance(x, Agg) and x.ty == 'Option': return IterM(list(x.fields) if x.variant == 1 else [])
             raise Unsupported('into_iter of ' + type(x).__name__)
@@ -673,6 +677,19 @@ def _builtin(s, ctx, func, g, tc, A, caller, ln, last):
     if E('Duration::div_duration_f64'): return to_real(deref_all(A[0]).t) / to_real(deref_all(A[1]).t)
     if E('Duration::mul_f64'): return Duration(to_real(deref_all(A[0]).t) * to_real(A[1]))
     if E('Duration::is_zero'): return simp(deref_all(A[0]).t == 0)
+    if (tc and tc[0] == 'Instant' and tc[1] == 'Add' and tc[2] == 'add') or E('Instant::checked_add'):
+        # Timespec { tv_sec: i64, .. }: the sum overflows when the seconds leave i64
+        a, b = deref_all(A[0]), deref_all(A[1])
+        over = ctx.branch(a.t + b.t >= (2 ** 63) * NS)
+        if last == 'checked_add': return none() if over else some(Instant(a.t + b.t))
+        if over: raise Panic('overflow when adding duration to instant', 'arith')
+        return Instant(a.t + b.t)
+    if E('Instant::checked_sub'): return some(Instant(deref_all(A[0]).t - deref_all(A[1]).t))
+    if E('Instant::checked_duration_since'):
+        a, b = deref_all(A[0]), deref_all(A[1]); return some(Duration(a.t - b.t)) if ctx.branch(a.t >= b.t) else none()
+    if tc and tc[0] == 'Instant' and tc[1].startswith('Partial') and tc[2] in ('lt', 'le', 'gt', 'ge', 'eq', 'ne'):
+        a, b = deref_all(A[0]).t, deref_all(A[1]).t
+        return {'lt': a < b, 'le': a <= b, 'gt': a > b, 'ge': a >= b, 'eq': a == b, 'ne': a != b}[tc[2]]
     if tc and tc[0] == 'Instant' and tc[1] == 'Sub' and tc[2] == 'sub':
         a, b = deref_all(A[0]), deref_all(A[1])
         if isinstance(b, Instant): return Duration(z3.If(a.t >= b.t, a.t - b.t, 0))
@@ -778,6 +795,16 @@ def _builtin(s, ctx, func, g, tc, A, caller, ln, last):
     # ------------------------------------------------------------ DashMap (one shard lock = worst case)
     if E('DashMap::new') or E('DashMap::with_capacity'):
         m = MapM(kind='DashMap'); m.shard = LockM(None, 'shard', 'RwLock'); return m
+    mt = re.search(r'TryResult::<.*>::(try_unwrap|unwrap|is_present|is_absent|is_locked)$', g) or re.search(r'TryResult::(try_unwrap|unwrap|is_present|is_absent|is_locked)$', g)
+    if mt:
+        v = deref_all(A[0]) if mt.group(1).startswith('is_') else A[0]
+        if not (isinstance(v, Agg) and v.ty == 'TryResult'): raise Unsupported('TryResult method on ' + type(v).__name__)
+        k = mt.group(1)
+        if k == 'try_unwrap': return some(v.fields[0]) if v.variant == 0 else none()
+        if k == 'unwrap':
+            if v.variant != 0: raise Panic('called `TryResult::unwrap()` on a `' + ('Absent' if v.variant == 1 else 'Locked') + '` value')
+            return v.fields[0]
+        return v.variant == {'is_present': 0, 'is_absent': 1, 'is_locked': 2}[k]
     mt = re.search(r'DashMap::(try_get|try_get_mut)$', g)
     if mt:
         # non-blocking lookup: TryResult::{Present(guard) = 0, Absent = 1, Locked = 2}; Locked when another holder has the shard
